@@ -26,6 +26,7 @@ func VerifC13Mux() {
 	ctl := NewTCPMuxGroupCtl(mux)
 	type ref struct {
 		key, domain, user, pass string
+		routeUser               string
 		members                 int
 	}
 	refs := map[string]*ref{}
@@ -54,28 +55,40 @@ func VerifC13Mux() {
 			continue
 		}
 		g := []string{"g", "h"}[zzverif.Choice("group", 2)]
-		key := []string{"k", "x"}[zzverif.Choice("key", 2)]
-		domain := []string{"a.com", "b.com"}[zzverif.Choice("domain", 2)]
-		user := []string{"", "u"}[zzverif.Choice("user", 2)]
-		pass := []string{"", "p"}[zzverif.Choice("pass", 2)]
+		// the endpoint parameters of this request: the base set or one deviation from it
+		key, domain, user, pass, routeUser := "k", "a.com", "", "", ""
+		switch zzverif.Choice("variant", 7) {
+		case 1:
+			key = "x"
+		case 2:
+			domain = "b.com"
+		case 3:
+			user, pass = "u", "p"
+		case 4:
+			user, pass = "u", "q"
+		case 5:
+			routeUser = "ru"
+		case 6:
+			user = "u"
+		}
 		taken := false
 		for _, r := range refs {
-			if r.domain == domain {
+			if r.domain == domain && r.routeUser == routeUser {
 				taken = true
 			}
 		}
-		ln, err := ctl.Listen(context.Background(), "httpconnect", g, key, vhost.RouteConfig{Domain: domain, Username: user, Password: pass})
+		ln, err := ctl.Listen(context.Background(), "httpconnect", g, key, vhost.RouteConfig{Domain: domain, Username: user, Password: pass, RouteByHTTPUser: routeUser})
 		r := refs[g]
 		if r == nil {
 			zzverif.Assert((err == nil) == !taken, "C13.mux.create-iff-route-free")
 			if err == nil {
-				refs[g] = &ref{key, domain, user, pass, 1}
+				refs[g] = &ref{key, domain, user, pass, routeUser, 1}
 				members = append(members, member{ln, g})
 				zzverif.Reach("C13.mux.created")
 			}
 			continue
 		}
-		okJoin := key == r.key && domain == r.domain && user == r.user && pass == r.pass
+		okJoin := key == r.key && domain == r.domain && user == r.user && pass == r.pass && routeUser == r.routeUser
 		zzverif.Assert((err == nil) == okJoin, "C13.mux.join-iff-key-route-and-credentials-match")
 		if err == nil {
 			r.members++
